@@ -18,7 +18,20 @@ CONSTANTS
   DeepTokens <- %(deep)s
   Events <- %(events)s
   MaxTokens = 4
+  Exchanges <- MCNoExchanges
+  XFormats <- MCNoFormats
 INVARIANTS TypeOK RejectIffInvalid OneLine DecSane PrintEvents PrintFormatters
+CHECK_DEADLOCK FALSE
+"""
+XCFG = """SPECIFICATION XGenSpec
+CONSTANTS
+  Tokens <- MCTokens
+  DeepTokens <- MCDeepQuick
+  Events <- MCEventsQuick
+  MaxTokens = 4
+  Exchanges <- %(exchanges)s
+  XFormats <- MCXFormats
+INVARIANTS TypeOK RejectIffInvalid OneLine EventFaithful PrintExchanges
 CHECK_DEADLOCK FALSE
 """
 
@@ -27,7 +40,8 @@ def gorun(ctx, pkg, run, cases, what, env=None, timeout=900):
     e = {"VERIF_IN": cases}
     if env:
         e.update(env)
-    r = ctx.gotest(pkg, ["%s/c20_test.go" % pkg], run, env=e, timeout=timeout)
+    files = ["%s/c20_test.go" % pkg] + (["proxy/c20_exchange_test.go"] if pkg == "proxy" else [])
+    r = ctx.gotest(pkg, files, run, env=e, timeout=timeout)
     for rec in r.of_kind("error"):
         ctx.inconclusive("%s: harness error: %s" % (what, rec.get("msg", "")[:1500]))
     for rec in r.of_kind("oracle")[:3]:
@@ -87,6 +101,58 @@ def run(ctx):
     ctx.cover("proxy", evaluations=sp["hex"] + sp["i32toa"] + sp["e2e"], exhaustive=False)
     ctx.take_failures(rp, "proxy")
 
+    # event construction: exchanges over real sockets (client -> HTTPProxy -> scripted upstreams)
+    xcases = os.path.join(ctx.tmp, "c20.xcases")
+    gx = ctx.tlc("AccessLog_MC", cfg_text=XCFG % dict(exchanges=ctx.pick("MCExchangesQuick", "MCExchanges")), workers=4,
+                 json_sink=xcases, coverage=ctx.thorough, timeout=ctx.pick(200, 900))
+    ctx.log("AccessLog exchanges: %d states, %.0fs" % (gx.distinct, gx.wall))
+    if not ctx.need_tlc_ok(gx, "AccessLog exchange Gen"):
+        return
+    if ctx.thorough and gx.coverage0:
+        ctx.inconclusive("AccessLog exchanges: actions never taken: %s" % gx.coverage0)
+        return
+    ctx.cover("xgen", states=gx.distinct, transitions=gx.generated)
+    rx = gorun(ctx, "proxy", "^TestVerifC20Exchange$", xcases, "C20 exchanges", timeout=1200)
+    if rx is None:
+        return
+    sx = rx.summary
+    ctx.log("exchanges: %d played over loopback (%s; %d skipped: no IPv6 loopback), %d line parts compared, %d control runs, %d oracle disagreements, %d failed, %.0fs"
+            % (sx["ran"], json.dumps(sx["kinds"], sort_keys=True), sx["skipped_no_ipv6"], sx["parts_compared"], sx["controls"],
+               sx["oracle_disagreements"], sx["fails"], rx.wall))
+    for n in rx.of_kind("note")[:3]:
+        ctx.log("note:", n.get("msg"))
+    if sx["ran"] < 50 or sx["parts_compared"] < 5 * sx["ran"] or len(sx["kinds"]) < 5:
+        ctx.inconclusive("exchange harness incomplete: %s" % json.dumps({k: sx[k] for k in ("ran", "parts_compared", "kinds")}))
+    if not sx["ipv6"]:
+        ctx.assumptions.append("no IPv6 loopback in this environment: exchanges from [::1] were skipped")
+    ctx.cover("exchange", traces_validated_against_impl=sx["ran"], evaluations=sx["parts_compared"], samples=sx.get("samples") or [])
+    ctx.take_failures(rx, "exchange")
+
+    # binding self-test of the exchange part: a corrupted prescribed status must be rejected
+    xs, xcs = None, []
+    with open(xcases) as fh:
+        for line in fh:
+            c = json.loads(line)
+            if "exchanges" in c:
+                xs = c["exchanges"]
+            elif c.get("x"):
+                xcs.append(c)
+    pick = next((c for c in xcs if len(c["fmt"]) == 1 and c["fmt"][0]["v"] == "$response_status" and c["lines"] == ["200\n"]), None)
+    if xs is None or pick is None:
+        ctx.inconclusive("no usable case for the exchange self-test")
+        return
+    mine = [dict(c) for c in xcs if c["x"] == pick["x"]]
+    for c in mine:
+        if c["fmt"] == pick["fmt"]:
+            c["lines"] = ["201\n"]
+    xone = os.path.join(ctx.tmp, "c20.xselftest")
+    vf.write_ndjson(xone, [{"exchanges": [x for x in xs if x["id"] == pick["x"]]}] + mine)
+    rs = ctx.gotest("proxy", ["proxy/c20_test.go", "proxy/c20_exchange_test.go"], "^TestVerifC20Exchange$", env={"VERIF_IN": xone}, timeout=600)
+    if not ctx.need_go_ok(rs, "C20 exchange self-test"):
+        return
+    if not any(r.get("features", {}).get("clause") == "event-status" for r in rs.of_kind("fail")):
+        ctx.inconclusive("binding self-test: a corrupted prescribed status of an exchange was NOT rejected by the harness")
+
     ru = gorun(ctx, "uuid", "^TestVerifC20UUID$", cases, "C20 uuid", env={"VERIF_C20_UUID": ctx.pick(100000, 3000000)})
     if ru is None:
         return
@@ -131,7 +197,7 @@ def replay(ctx, rp):
     one = os.path.join(ctx.tmp, "c20.replay")
     vf.write_ndjson(one, [rp["replay"]["case"]])
     pkg, run_ = {"logger": ("logger", "^TestVerifC20Logger$"), "proxy": ("proxy", "^TestVerifC20Proxy$"),
-                 "uuid": ("uuid", "^TestVerifC20UUID$")}[sub]
+                 "exchange": ("proxy", "^TestVerifC20Exchange$"), "uuid": ("uuid", "^TestVerifC20UUID$")}[sub]
     r = gorun(ctx, pkg, run_, one, "C20 replay")
     if r is None:
         return
